@@ -256,6 +256,7 @@ def raw_symbol_rules(ctx, rid_crc, rid_echo):
                'the comparison is reached before the per-symbol processing: %s' % (not late))
 
 def r6(ctx):
+    ctx.mark('entry-reset', 'C01.R6')
     ctx.rule('C01.R6', 'setState clears command, response, CRC, CRC-valid flag, send position and answering flag on every '
              'path that enters ready or skip, clears the CRC when entering recvRes/sendRes, and clears the pending escape '
              'on every path', minimum=8)
